@@ -77,6 +77,8 @@ def run_real(case):
         def dispose(self):
             emit(["srcD"])
             self.inner.dispose()
+            if case.get("srcd_raises"):      # fault: the inner source's clean-up raises
+                raise InjectedError("srcd")
 
     def src_body(observer, scheduler=None):
         # a source that may emit inside subscribe (sync_prop false: adversarial emitter that goes on after an
@@ -112,18 +114,37 @@ def run_real(case):
 
     oper = case["oper"]
     if oper == "using":
+        from reactivex.disposable import CompositeDisposable, Disposable
+
         class Res:
             def dispose(self):
                 emit(["resD"])
+
+        class ResLen0(Res):                  # a real resource that is falsy: `if resource is not None`
+            def __len__(self):
+                return 0
+
+        class ResBoolFalse(Res):
+            def __bool__(self):
+                return False
+
+        class ResComposite(CompositeDisposable):   # empty (falsy) when the factory returns, filled by the observable factory
+            def dispose(self):
+                emit(["resD"])
+                super().dispose()
+
+        kinds = {"obj": Res, "len0": ResLen0, "boolfalse": ResBoolFalse, "composite": ResComposite}
 
         def resf():
             if case["res"] == "raise":
                 emit(["act", "resf", True])
                 raise InjectedError("resf")
             emit(["act", "resf", False])
-            return Res() if case["res"] == "some" else None
+            return kinds[case.get("res_kind", "obj")]() if case["res"] == "some" else None
 
         def obsf(r):
+            if isinstance(r, CompositeDisposable):
+                r.add(Disposable())
             if case["obsf"] == "raise":
                 emit(["act", "obsf", True])
                 raise InjectedError("obsf")
@@ -256,6 +277,9 @@ def gen_case(rng, oper=None):
         case["res"] = rng.choice(["some"] * 7 + ["none", "none", "raise"])
         case["obsf"] = rng.choice(["ok"] * 4 + ["raise"])
         case["act_raises"] = []
+        case["res_kind"] = rng.choice(["obj", "obj", "len0", "boolfalse", "composite"])
+    elif rng.random() < (0.3 if oper in ("finally_action", "do_finally", "do_on_dispose") else 0.1):
+        case["srcd_raises"] = True          # fault position: dispose() of the inner source's subscription raises
     if oper == "do_action":
         case["has"] = [rng.random() < 0.7 for _ in range(3)]
     return case
@@ -278,7 +302,8 @@ def model_request(case):
         sync, sync_exn, prop = ([] if case["pass_sched"] else [["E", name]]), None, True
     req = {"op": "fin_run", "oper": case["oper"], "sub_raises": case["sub_raises"], "act_raises": case["act_raises"],
            "has": case["has"], "res": case["res"], "obsf": case["obsf"], "t_sub": case["t_sub"], "sync": sync,
-           "sync_prop": prop, "trace": merged_trace(case)}
+           "sync_prop": prop, "trace": merged_trace(case), "srcd_raises": bool(case.get("srcd_raises")),
+           "res_kind": case.get("res_kind", "obj")}
     if sync_exn is not None:
         req["sync_exn"] = sync_exn
     return req
@@ -339,6 +364,7 @@ def oracle(case, out):
         n = sum(1 for _, e in log if e == ["resD"])
         if n > 1:
             return f"resource disposed {n} times"
+        # `if resource is not None`: a resource that is falsy (len 0 / bool False / empty composite) is still a resource
         if case["res"] != "some":
             return "resource disposed although none was created" if n else None
         if not out["subscribed"]:
@@ -374,7 +400,10 @@ def oracle(case, out):
                 if over and a[0][0] != t_over and out["subscribed"]:
                     return f"{name} action ran at {a[0][0]}, subscription was over at {t_over}"
 
-    if oper in DO_FAMILY and not act_raised and not (oper == "do_after_next" and case["sub_raises"]):
+    # (the do_* statements are claimed for well-behaved inner subscriptions: with the `srcd_raises` fault the
+    #  exception of the inner dispose() legitimately cuts do_after_* short; the fault is in scope for the
+    #  exactly-once statements above)
+    if oper in DO_FAMILY and not act_raised and not case.get("srcd_raises") and not (oper == "do_after_next" and case["sub_raises"]):
         # transparency: the subscriber sees exactly what it sees without the operator (values, times, raising)
         ref = out["ref"]
         if _delivered(ref) != deliv:
@@ -602,14 +631,18 @@ RULE = ("one subscription of using / finally_action / do_finally / do_action(any
         "logging source that may also emit inside subscribe (adversarial or ordinary emitter) and then raise; 0-5 timed messages "
         "(25% non-conforming: events after a terminal), 0-2 dispose() calls at element/terminal/subscribe instants, before "
         "subscription and far later (also twice at one instant); subscriber callbacks and operator callbacks raising at random "
-        "invocation indices; using: resource factory returns resource/None/raises, observable factory raises (throw on the "
+        "invocation indices; using: resource factory returns a resource (truthy object / __len__()==0 / __bool__()==False / empty "
+        "CompositeDisposable filled by the observable factory) / None / raises, observable factory raises (throw on the "
         "ImmediateScheduler or on the TestScheduler). The full timed effect log (deliveries with raised flag, every operator "
         "callback with argument, resource.dispose, source-subscription dispose, exceptions escaping to emitter/caller) of the real "
-        "code is compared with the Lean model fed the statically merged same-instant event order; non-trivial = a terminal was "
+        "code is compared with the Lean model; fault position 'dispose() of the inner source's subscription raises' on 30% of the "
+        "finally_action/do_finally/do_on_dispose cases and 10% of the other do_* cases; the model is fed the statically merged same-instant event order; non-trivial = a terminal was "
         "delivered, something was disposed, an exception escaped or an operator callback ran")
 ASSUMPTIONS = [
     "single-threaded / virtual-time execution; one subscription per case (state is per subscription in all three files)",
-    "resource.dispose() and the source subscription's dispose() do not raise",
+    "resource.dispose() does not raise; the inner subscription's dispose() does not raise for using / do_* (hypothesis c.srcDisposeRaises = false "
+    "of their theorems; generated as a fault for finally_action — proved — and for do_finally / do_on_dispose / do_* — correspondence + "
+    "exactly-once oracle only)",
     "same-instant order on the TestScheduler is (due time, enqueue order): hot messages, then subscribe/dispose actions in scheduling order, "
     "then items enqueued at subscription time (cold messages, throw)",
     "exactly-once for using / do_finally / do_on_dispose is claimed when subscribe() itself did not raise (witness theorems "
@@ -634,5 +667,7 @@ LEVEL_NOTE = ("Hypothesis that cannot be dropped (decided witnesses, reproduced 
               "failure inside subscribe). Defect repaired by fixes/C40_do_finally_flag_before_action.patch: the pinned do_finally set was_invoked "
               "after the call, so a raising finally action was invoked a second time (decided witness on the AsIs handler). "
               "do_after_next is transparent only if the subscriber's on_next does not raise (its try covers observer.on_next). "
-              "Not proved in Lean: the link between the operator-free reference pipeline (do_action() without callbacks, two AutoDetachObservers) and "
+              "finally_action's theorem covers the fault 'the inner subscription's dispose() raises'; the do_finally / do_on_dispose / using / "
+              "do_* theorems assume it away (the fault is generated and compared against the model for them, and the exactly-once oracle "
+              "applies to do_finally/do_on_dispose, whose hook runs before the inner dispose). Not proved in Lean: the link between the operator-free reference pipeline (do_action() without callbacks, two AutoDetachObservers) and "
               "C01's single-observer model. Trusted: harness, merged same-instant order rule.")
